@@ -1,6 +1,6 @@
 """C19: check configuration (PROP) and MANIFEST texts (META)."""
 PROP = {
-    "lean_modules": ["ConduitModel.Props.C19", "ConduitModel.Facts.C19"],
+    "lean_modules": ["ConduitModel.Props.C19", "ConduitModel.Props.C19Flock", "ConduitModel.Facts.C19"],
     "jobs": [
         {"harness": "h_registry", "comp": "pathclean", "n_quick": 20000, "n_thorough": 200000,
          "why": "filepath.Clean/Join/IsAbs/Dir differ from the model of them that the confinement theorem (C19_extract_confined) is proved about"},
@@ -72,7 +72,11 @@ META = {
     "note": "Proved about the models; the code is tied by regenerated facts (gate orders with dominance, translated decision functions, "
             "statement shapes of ExtractBinary, WriteFile operation list) and by correspondence runs (finite samples) incl. an independent "
             "monitor in the install and index harnesses. Assumed, not verified: rename(2)/flock/O_EXCL semantics, tar/gzip readers, "
-            "cryptography, Go's filepath implementation beyond the differential, NAME_MAX=255. The offline-bundle path is covered by gate-order "
+            "cryptography, Go's filepath implementation beyond the differential, NAME_MAX=255. The flock contract itself (a lock addressed by PATH "
+            "serialises only while the path keeps naming one inode) is no longer a bare assumption: Model/FlockFile (open / flock / unlock / unlink "
+            "of a lock file by any number of processes), C19_flock_mutual_exclusion (every interleaving without an unlink keeps at most one "
+            "process inside), C19_flock_unlink_counterexample (one unlink while held lets two in), and the regenerated fact that pkg/registry "
+            "never unlinks, renames or reads the path of a lock file (C19_fact_lock_files_never_unlinked, C19_locks_serialise). The offline-bundle path is covered by gate-order "
             "theorems and facts only (no differential component). Trusted: Lean kernel, factgen, harness.",
     "technique": "Lean 4 proofs (invariant over the extraction loop, dominance in gate programs over regenerated call orders, abstract "
                  "interpretation of the WriteFile operation list proved sound, induction over request sequences) + regenerated facts + "
